@@ -390,6 +390,38 @@ def rule_flow_admit_sums(ctx):
                         r.violate(caller, 'candidate-frequency', 'hash', 'the candidate passed to the admission scan does not carry frequency(own hash) exactly once: %s' % fmt(cand)[:100],
                                   where=ctx.where(caller, e[3]))
                     break
+    # the hash an insert hands on (it is stored in the entry's queue node and read back when the entry is a victim, or carried by the write op to
+    # the candidate's frequency) is the hasher applied to the inserted key -- on every path, whatever the state of the estimator
+    hash_fns = {n_ for n_ in prog.bodies if 'std::hash::BuildHasher::hash_one' in R.ext_calls.get(n_, ())}
+    hash_like = hash_fns | {n_ for n_ in prog.bodies if prog.bodies[n_].kind != 'closure' and len(prog.bodies[n_].blocks) <= 8 and (prog.callees(n_) & hash_fns)}
+    for pubins in ('unsync::cache::Cache::insert', 'sync::cache::Cache::insert'):
+        if pubins not in prog.bodies:
+            continue
+        seen_sites = set()
+        try:
+            ips = _run(ctx, pubins, inline_depth=1, loop_visits=2, inline_pred=lambda n_, bb, d: False)
+        except PathLimit:
+            continue
+        for p in ips:
+            if p.diverged:
+                continue
+            for e in p.events:
+                if e[0] != 'call' or e[1] not in prog.bodies or e[1] in hash_like:
+                    continue
+                cb = prog.bodies[e[1]]
+                hp = [i for i in range(1, cb.argc + 1) if cb.local_name(i) == 'hash' and cb.local_ty(i)['s'] == 'u64']
+                if not hp or len(e[2]) < hp[0]:
+                    continue
+                a_ = e[2][hp[0] - 1]
+                ok = any(isinstance(x, tuple) and x and x[0] == 'call' and (x[1] in hash_like or str(x[1]) == 'std::hash::BuildHasher::hash_one') for x in subterms(a_))
+                if (e[3], fmt(a_)) in seen_sites:
+                    continue
+                seen_sites.add((e[3], fmt(a_)))
+                r.instance(function=pubins, passes_hash_to=e[1], hash=fmt(a_)[:60], is_hash_of_key=ok)
+                if not ok:
+                    r.violate(pubins, 'node-hash', 'hash', 'a path of %s hands `%s` to %s as the hash of the inserted key: the frequency read back for this entry (as a victim / as the candidate) is '
+                              'that of another key' % (pubins, fmt(a_)[:50], e[1]), where=ctx.where(pubins, e[3]), path=[fmt(c)[:60] + ' == ' + str(v) for c, v in p.conds][:6],
+                              expected='self.hash(&key) on every path')
     return r
 
 
